@@ -288,6 +288,7 @@ func (g *c12) schedules() {
 		}
 	}
 	g.cbSchedules()
+	g.schedulesW()
 	// random schedules of 3-5 threads of random kinds over two names
 	n := 300
 	if g.tier == "thorough" {
